@@ -41,7 +41,7 @@ import (
 func TestMain(m *testing.M) {
 	vkit.SilenceLog()
 	rsSweep()
-	vkit.MainWith(m, "C06", func() { encCleanup(); rsCleanup() })
+	vkit.MainWith(m, "C06", func() { fwdClose(); encCleanup(); rsCleanup() })
 }
 func TestProp(t *testing.T)   { vkit.RunAll(t) }
 func TestReplay(t *testing.T) { vkit.RunReplay(t) }
@@ -535,6 +535,11 @@ func (f *fixture) resolve(d Dl, snaps []*hb, cached []entry, noTerm bool) *hb {
 		h.Peers = append(h.Peers, speer{ID: p.GetId(), Store: p.GetStoreId(), Learner: p.GetRole() == metapb.PeerRole_Learner})
 	}
 	h.Leader = e.ptr.GetLeader().GetId()
+	return fabricate(d, cached, i, h, func() uint64 { f.fresh++; return f.fresh })
+}
+
+// fabricate turns h (a copy of what is cached as cached[i]) into the fabricated heartbeat d.K.
+func fabricate(d Dl, cached []entry, i int, h *hb, fresh func() uint64) *hb {
 	switch d.K {
 	case "uconf":
 		if h.Conf == 0 {
@@ -555,8 +560,7 @@ func (f *fixture) resolve(d Dl, snaps []*hb, cached []entry, noTerm bool) *hb {
 			h.End = cached[i+1].end
 		}
 	case "uover", "eqver":
-		f.fresh++
-		h.ID = f.fresh
+		h.ID = fresh()
 		switch d.A % 4 {
 		case 1:
 			if i+1 < len(cached) {
